@@ -152,6 +152,12 @@ func (fc *fakeChain) block(id int) *fblock {
 	return fc.byID[id]
 }
 
+func (fc *fakeChain) blockByHash(h chainhash.Hash) *fblock {
+	fc.mu.Lock()
+	defer fc.mu.Unlock()
+	return fc.byHash[h]
+}
+
 func (fc *fakeChain) idOf(h chainhash.Hash) string {
 	if h == (chainhash.Hash{}) {
 		return "z"
